@@ -170,6 +170,35 @@ def recordsP (firstTs : Int) : Nat → Nat → P (List DRec)
   | _, 0 => pure []
   | i, n + 1 => do let r ← record firstTs i; let rest ← recordsP firstTs (i + 1) n; pure (r :: rest)
 
+/-- a record batch after its `baseOffset` and `batchLength` fields -/
+def batchTail (crc32c : Bytes → Nat) (hasComp : Bool) (partition : Int) (blobLen : Nat) : P DBatch := do
+  let ple ← iN 4
+  if ple != -1 then err "partition-leader-epoch"
+  let magic ← u8
+  if magic != 2 then err "magic"
+  let crc ← uN 4
+  let crcd ← get
+  if crc != crc32c crcd then err "crc"
+  let attrs ← uN 2
+  if attrs / 8 != 0 && attrs / 8 != 2 then err "attributes"
+  let codec := attrs % 8
+  let lastOffsetDelta ← iN 4
+  let firstTs ← iN 8
+  let maxTs ← iN 8
+  let pid ← iN 8
+  let epoch ← iN 2
+  let baseSeq ← iN 4
+  let n ← iN 4
+  if n < 0 then err "record-count"
+  if lastOffsetDelta != n - 1 then err "last-offset-delta"
+  let payload ← get
+  set ([] : Bytes)
+  let call ← nextCall hasComp
+  let plain ← plainOf call codec payload
+  let recs ← within plain "records" (recordsP firstTs 0 n.toNat)
+  pure { partition := partition, blobLen := blobLen, magic := 2, pid := pid, epoch := epoch, baseSeq := baseSeq,
+         transactional := attrs / 16 == 1, codec := codec, firstTs := firstTs, maxTs := maxTs, recs := recs }
+
 def recordBatch (crc32c : Bytes → Nat) (hasComp : Bool) (partition : Int) (blob : Bytes) : P DBatch :=
   within blob "batch" (do
     let baseOffset ← iN 8
@@ -177,32 +206,7 @@ def recordBatch (crc32c : Bytes → Nat) (hasComp : Bool) (partition : Int) (blo
     let batchLength ← iN 4
     let rest ← get
     if batchLength != (rest.length : Int) then err "batch-length"
-    let ple ← iN 4
-    if ple != -1 then err "partition-leader-epoch"
-    let magic ← u8
-    if magic != 2 then err "magic"
-    let crc ← uN 4
-    let crcd ← get
-    if crc != crc32c crcd then err "crc"
-    let attrs ← uN 2
-    if attrs / 8 != 0 && attrs / 8 != 2 then err "attributes"
-    let codec := attrs % 8
-    let lastOffsetDelta ← iN 4
-    let firstTs ← iN 8
-    let maxTs ← iN 8
-    let pid ← iN 8
-    let epoch ← iN 2
-    let baseSeq ← iN 4
-    let n ← iN 4
-    if n < 0 then err "record-count"
-    if lastOffsetDelta != n - 1 then err "last-offset-delta"
-    let payload ← get
-    set ([] : Bytes)
-    let call ← nextCall hasComp
-    let plain ← plainOf call codec payload
-    let recs ← within plain "records" (recordsP firstTs 0 n.toNat)
-    pure { partition := partition, blobLen := blob.length, magic := 2, pid := pid, epoch := epoch, baseSeq := baseSeq,
-           transactional := attrs / 16 == 1, codec := codec, firstTs := firstTs, maxTs := maxTs, recs := recs })
+    batchTail crc32c hasComp partition blob.length)
 
 /-! ### message sets (magic 0 and 1) -/
 
